@@ -39,6 +39,14 @@ pub struct Case {
     /// (error replies are fragmented and budgeted like any other)
     #[serde(default)]
     pub reply_code: Option<u8>,
+    /// uploads: from the second block on every request carries one more
+    /// option of this many bytes (the acknowledged size has to follow)
+    #[serde(default)]
+    pub late_extra: u16,
+    /// downloads without a client size: an earlier download of the same body
+    /// with one more response option was abandoned after its first block
+    #[serde(default)]
+    pub pre_abandoned: bool,
 }
 
 impl Case {
@@ -68,7 +76,12 @@ impl Case {
         // the request's own block option is part of what the client sends
         let b1 = if self.upload { Some(block_bytes(0xFFFF, true, 6)) } else { None };
         let b2 = if !self.upload { Some(block_bytes(0xFFFF, false, 6)) } else { None };
-        self.request(0, b1, b2, vec![]).overhead()
+        let mut r = self.request(0, b1, b2, vec![]);
+        if self.upload && self.late_extra > 0 {
+            // the larger of the transfer's requests counts
+            r.extra.push((65000, vec![7; self.late_extra as usize]));
+        }
+        r.overhead()
     }
     pub fn response_overhead(&self) -> usize {
         let mut o = self.reply().overhead(self.token_len as usize);
@@ -113,6 +126,19 @@ fn run_download(c: &Case, acc: &mut Acc) -> Result<bool, Fail> {
     let mut blocks = 0usize;
     let mut near = false;
     let mut last_szx: Option<u8> = None;
+    if c.pre_abandoned && c.client_szx.is_none() {
+        // an earlier download of the same body, with one more response
+        // option, that stopped after its first block
+        let mut earlier = reply.clone();
+        earlier.options.push((4, vec![0xE7; 8]));
+        mid += 1;
+        let req = c.request(mid, None, None, vec![]);
+        let out = exchange(&mut handler, &req.msg().encode().unwrap(), 1, &mut |_r| Some(earlier.clone()));
+        if let Some(msg) = out.panicked() {
+            fail!("c10-panic", "handler panicked on the earlier download: {msg}");
+        }
+        acc.class("download:after-an-abandoned-one-with-more-options");
+    }
     loop {
         mid += 1;
         let req = c.request(mid, None, req_b2.clone(), vec![]);
@@ -351,7 +377,11 @@ fn run_upload(c: &Case, acc: &mut Acc) -> Result<bool, Fail> {
                 mid += 1;
                 let num = (offset / size) as u32;
                 let want_b2 = c.upload_block2.map(|s| block_bytes(0, false, s));
-                let req = c.request(mid, Some(block_bytes(num, !is_final, szx)), want_b2, data[offset..end].to_vec());
+                let mut req = c.request(mid, Some(block_bytes(num, !is_final, szx)), want_b2, data[offset..end].to_vec());
+                if blocks >= 1 && c.late_extra > 0 {
+                    req.extra.push((65000, vec![7; c.late_extra as usize]));
+                    acc.class("upload:later-blocks-carry-one-more-option");
+                }
                 let out = exchange(&mut handler, &req.msg().encode().unwrap(), 1, &mut |_r| Some(reply.clone()));
                 let ctx = format!(
                     "upload, budget {}, request overhead {}, client szx {cs}, current szx {szx}, block {num}{}",
@@ -428,12 +458,14 @@ fn run_upload(c: &Case, acc: &mut Acc) -> Result<bool, Fail> {
                 // the client's next block, with the size as acknowledged
                 let nsz = b.size();
                 let next_end = (offset + nsz).min(data.len());
-                let next = c.request(
+                let mut next = c.request(
                     mid + 1,
                     Some(block_bytes((offset / nsz) as u32, next_end != data.len(), b.szx)),
                     None,
                     vec![0; nsz],
                 );
+                // (the next block looks like the one just acknowledged)
+                next.extra = req.extra.clone();
                 let len = next.msg().wire_len().unwrap();
                 ensure!(
                     len <= c.budget,
@@ -503,6 +535,8 @@ fn case() -> BoxedStrategy<Case> {
                 reduce: if r & 0x4000 != 0 { 1 + (r >> 12 & 3) as u8 } else { 0 },
                 upload_block2: if upload && r & 0x3000 == 0x3000 { Some((r >> 5) as u8 % 7) } else { None },
                 reply_code: if r % 5 == 0 { Some([0x84u8, 0xA0, 0x41, 0x9F][(r as usize >> 3) % 4]) } else { None },
+                late_extra: if upload && r % 7 == 3 { 12 + (r >> 6) % 40 } else { 0 },
+                pre_abandoned: !upload && r % 3 == 1,
             };
             let lo = c.min_budget();
             let hi = 1280usize;
@@ -554,6 +588,8 @@ pub fn run(ctx: &Ctx, rep: &mut Report) {
                 reduce: 0,
                 upload_block2: None,
                 reply_code: None,
+                late_extra: 0,
+                pre_abandoned: false,
             };
             let overhead = if upload { base.request_overhead() } else { base.reply().overhead(4) };
             let lo = base.min_budget();
@@ -611,6 +647,8 @@ pub fn run(ctx: &Ctx, rep: &mut Report) {
                 reduce: 0,
                 upload_block2: None,
                 reply_code: None,
+                late_extra: 0,
+                pre_abandoned: false,
                     };
                     let overhead = if upload { base.request_overhead() } else { base.reply().overhead(token_len as usize) };
                     let lo = base.min_budget();
@@ -657,6 +695,8 @@ pub fn run(ctx: &Ctx, rep: &mut Report) {
                 reduce: 0,
                 upload_block2: None,
                 reply_code: None,
+                late_extra: 0,
+                pre_abandoned: false,
             };
             let overhead = base.reply().overhead(token_len as usize);
             let lo = base.min_budget();
